@@ -1,6 +1,7 @@
 """C11 — regex and wildcard operators match with the documented semantics (configuration clauses)."""
 from lib import *
 import common
+import sem
 
 LEVEL = "other"
 EXPLANATION = ("The configuration handed to the regex and wildcard engines is extracted from the builder call chains "
@@ -82,7 +83,6 @@ def rule_regexcfg(E, R):
         hn_ = E.hir(RX + "::new")
         lim = {}
         if hn_:
-            import sem
             S = sem.Sem(E, hn_)
             for x in S.sites():
                 if x.node.get("k") == "MethodCall" and x.node["m"] in ("nfa_size_limit", "hybrid_cache_capacity") and x.node.get("args"):
@@ -121,10 +121,10 @@ def rule_regexcfg(E, R):
         R.cannot(rule, RX + "::new", "anchor not found")
     hi = E.hir(RX + "::is_match")
     if hi:
-        t = tail(hi["body"])
-        ok = t.get("k") == "MethodCall" and norm(t.get("callee", "")) == "regex_automata::meta::regex::Regex::is_match" and \
-            is_param(t["args"][0], hi, 1) and norm(t["args"][0].get("ty", "")) == "&[u8]"
-        R.check(ok, rule, RX + "::is_match", "unanchored search (meta::Regex::is_match) over the raw bytes", where=hi["span"])
+        ok, det = common.sole_result(E, hi, lambda t, S, fr: t.get("k") == "MethodCall" and
+                                     norm(t.get("callee", "")) == "regex_automata::meta::regex::Regex::is_match" and
+                                     sem.param_index(S, t["args"][0], fr) == 1 and norm(t["args"][0].get("ty", "")) == "&[u8]")
+        R.check(ok, rule, RX + "::is_match", "unanchored search (meta::Regex::is_match) over the raw bytes, for every value", det, hi["span"])
     # lexers: pattern text and settings
     for fn, fmt in (("rhs_types::regex::lex_regex_from_raw_string", "Raw"), ("rhs_types::regex::lex_regex_from_literal", "Literal")):
         h = E.hir(fn)
@@ -134,7 +134,6 @@ def rule_regexcfg(E, R):
         nw = [c for c in exprs(h["body"], "Call") if norm(c.get("callee", "")) == RX + "::new"]
         # the settings argument is `parser.settings()` of the parser handed to Regex::lex_with - taken here, or by the
         # caller and passed down (the helper is analysed inlined into Regex::lex_with)
-        import sem
         hl_ = E.hirs(r"LexWith<&ast::parse::FilterParser> for rhs_types::regex::\w+::Regex\}::lex_with$|Regex as lex::LexWith<&ast::parse::FilterParser>>::lex_with$")
         ok = False
         if len(nw) == 1 and len(hl_) == 1:
@@ -156,7 +155,6 @@ def rule_regexcfg(E, R):
             # the only rewrite: backslash dropped before a quote outside a class
             ok = False
             # the scanning loop may live in a private helper of the same file
-            import sem
             Sl = sem.Sem(E, h)
             Sl.sites()
             bodies = [h] + [E.hir(p_) for p_, _ in Sl.inlined if E.hir(p_) is not None]
@@ -200,14 +198,13 @@ def rule_wildcfg(E, R):
         R.check(not extra, rule, WC + "::new", "no other builder option is set", str(sorted(extra)), hn["span"])
     hi = E.hir(WC + "::is_match")
     if hi:
-        t = tail(hi["body"])
-        ok = t.get("k") == "MethodCall" and norm(t.get("callee", "")) == "wildcard::Wildcard::is_match" and is_param(t["args"][0], hi, 1)
-        R.check(ok, rule, WC + "::is_match", "whole-value match (wildcard::Wildcard::is_match) over the raw bytes", where=hi["span"])
+        ok, det = common.sole_result(E, hi, lambda t, S, fr: t.get("k") == "MethodCall" and
+                                     norm(t.get("callee", "")) == "wildcard::Wildcard::is_match" and sem.param_index(S, t["args"][0], fr) == 1)
+        R.check(ok, rule, WC + "::is_match", "whole-value match (wildcard::Wildcard::is_match) over the raw bytes, for every value", det, hi["span"])
     # validate dominates construction
     lit = [s for s in exprs(hn["body"], "Struct") if norm(s["res"].get("path", "")) == WC]
     # the Wildcard value is built only where the pattern passed validation - whether the checks live in `validate_wildcard`
     # (analysed inlined into `new`) or in `new` itself
-    import sem
     Sw = sem.Sem(E, hn)
     sites_ = [x for x in Sw.sites() if x.node.get("k") == "Struct" and norm(x.node["res"].get("path", "")) == WC]
     R.check(len(sites_) >= 1, "R11-validate", WC + "::new", "validate_wildcard(..)? precedes construction", "no construction site found", hn["span"])
@@ -261,9 +258,9 @@ def rule_wiring(E, R):
         if len(hs) != 1:
             R.cannot(rule, rx, "anchor not found (%d)" % len(hs))
             continue
-        t = tail(hs[0]["body"])
-        R.check(t.get("k") == "MethodCall" and norm(t.get("callee", "")) == meth and local_name(t["recv"]) == "self", rule,
-                norm(hs[0]["path"]), "comparison is is_match(value bytes)", where=hs[0]["span"])
+        ok, det = common.sole_result(E, hs[0], lambda t, S, fr, meth=meth: t.get("k") == "MethodCall" and norm(t.get("callee", "")) == meth and
+                                     sem.param_index(S, t["recv"], fr) == 0)
+        R.check(ok, rule, norm(hs[0]["path"]), "comparison is is_match(value bytes)", det, hs[0]["span"])
     # compile: Matches / Wildcard / StrictWildcard hand their own payload to compile_with
     h, sites = common.compile_with_sites(E)
     for c, st in sites:
